@@ -242,6 +242,11 @@ impl Embeddings {
             e.junk = Some([0.0, 0.0, -0.0]);
             e.name = format!("{}+zerojunk", e.name);
             v.push(e);
+            // non-finite junk (an "unbounded" slab, an explicit not-a-number marker): arbitrary values are arbitrary values
+            let mut e = Embedding::new(1.0, [0.0; 3]);
+            e.junk = Some(if (seed ^ inp.gens.len() as u64) % 2 == 0 { [0.0, f64::NAN, f64::INFINITY] } else { [0.0, f64::NEG_INFINITY, f64::NAN] });
+            e.name = format!("{}+nanjunk", e.name);
+            v.push(e);
         }
         v
     }
@@ -1020,7 +1025,7 @@ pub fn main_replay(args: &[String]) -> i32 {
         }
         // junk vs clean
         for (name, tok) in tokens.iter() {
-            if let Some(base) = name.strip_suffix("+junk").or(name.strip_suffix("+zerojunk")) {
+            if let Some(base) = name.strip_suffix("+junk").or(name.strip_suffix("+zerojunk")).or(name.strip_suffix("+nanjunk")) {
                 if let Some((_, t0)) = tokens.iter().find(|(n, _)| n == base) {
                     if t0 != tok {
                         failures.push(json!({"prop": "C08", "what": "result depends on the unused coordinates (token mismatch between junk and clean run)",
